@@ -20,10 +20,15 @@ def run(ctx):
                 san=False, assertions=False)
     if not ok:
         return [], 0
-    try:
-        p = subprocess.run([exe], stdout=subprocess.PIPE, stderr=subprocess.PIPE, timeout=40, stdin=subprocess.DEVNULL)
-    except subprocess.TimeoutExpired:
-        return [("execsig:timeout", "execsig_harness did not end within 40 s", {"harness": "execsig_harness"})], 0
+    p = None
+    for attempt in (1, 2):          # a time-out alone is retried once before it is reported
+        try:
+            p = subprocess.run([exe], stdout=subprocess.PIPE, stderr=subprocess.PIPE, timeout=60, stdin=subprocess.DEVNULL)
+            break
+        except subprocess.TimeoutExpired:
+            ctx.log("execsig_harness did not end within 60 s (attempt %d)" % attempt)
+    if p is None:
+        return [("execsig:timeout", "execsig_harness did not end within 60 s, twice", {"harness": "execsig_harness"})], 0
     out = p.stdout.decode("utf-8", "replace")
     offs, n = [], 0
     for line in out.splitlines():
